@@ -8,8 +8,8 @@ package mc
 // lattice x every single (thorough: double) packet fault among the survivors.
 
 import (
-	"os"
 	"fmt"
+	"os"
 	"strings"
 	"testing"
 	"time"
